@@ -5,6 +5,7 @@ import (
 	"encoding/json"
 	"errors"
 	"fmt"
+	"math"
 	"strings"
 	"sync"
 	"testing"
@@ -197,14 +198,25 @@ func c15RunIn(t rt.TB, c c15Case) {
 	cond := func() bool { v := truthAt(condN); condN++; return v }
 	switch c.Op {
 	case "Retry":
-		obs = ro.RetryWithConfig[int](ro.RetryConfig{MaxRetries: uint64(c.P[0]), ResetOnSuccess: c.P[1] == 1})(a.Observable())
-		mobs = model.Retry(c.P[0], c.P[1] == 1)(mA)
+		budget, mbudget := uint64(c.P[0]), c.P[0]
+		if c.P[0] < 0 {
+			// budgets at the top of the parameter's range: -1 = MaxUint64, -2 = MaxUint64-1, -3 = MaxInt64
+			budget = map[int]uint64{-1: math.MaxUint64, -2: math.MaxUint64 - 1, -3: math.MaxInt64}[c.P[0]]
+			mbudget = 1 << 60
+		}
+		obs = ro.RetryWithConfig[int](ro.RetryConfig{MaxRetries: budget, ResetOnSuccess: c.P[1] == 1})(a.Observable())
+		mobs = model.Retry(mbudget, c.P[1] == 1)(mA)
 	case "RetryDefault":
 		obs = ro.Retry[int]()(a.Observable())
 		mobs = model.Retry(0, false)(mA)
 	case "RepeatWith":
-		obs = ro.RepeatWith[int](int64(c.P[0]))(a.Observable())
-		mobs = model.RepeatWith(c.P[0])(mA)
+		if c.P[0] < 0 {
+			obs = ro.RepeatWith[int](math.MaxInt64)(a.Observable()) // -1 = the top of the range
+			mobs = model.RepeatWith(1 << 60)(mA)
+		} else {
+			obs = ro.RepeatWith[int](int64(c.P[0]))(a.Observable())
+			mobs = model.RepeatWith(c.P[0])(mA)
+		}
 	case "DoWhile", "While":
 		var op func(ro.Observable[int]) ro.Observable[int]
 		switch c.Op + c.Variant {
@@ -440,6 +452,13 @@ func TestC15_Enumerated(t *testing.T) {
 			}
 			if scriptEnd(seq[len(seq)-1]) == 'C' {
 				run(c15Case{Op: "RetryDefault", Attempts: seq, Async: async, CancelAt: -1})
+				// budgets at the top of the range behave like "as many as it takes"
+				for _, max := range []int{-1, -2, -3} {
+					run(c15Case{Op: "Retry", P: []int{max, 0}, Attempts: seq, Async: async, CancelAt: -1})
+				}
+			}
+			if scriptEnd(seq[len(seq)-1]) == 'E' {
+				run(c15Case{Op: "RepeatWith", P: []int{-1}, Attempts: seq, Async: async, CancelAt: -1})
 			}
 			for n := 0; n <= 3; n++ {
 				run(c15Case{Op: "RepeatWith", P: []int{n}, Attempts: seq, Async: async, CancelAt: -1, Twice: !async})
